@@ -120,7 +120,11 @@ func DeploymentIDEVAttributes(id DeploymentID) []sdk.Attribute {
 
 // ParseEVDeploymentID returns deploymentID details for given event attributes
 func ParseEVDeploymentID(attrs []sdk.Attribute) (DeploymentID, error) {
-	owner, err := sdkutil.GetAccAddress(attrs, evOwnerKey)
+	if _, err := sdkutil.GetAccAddress(attrs, evOwnerKey); err != nil {
+		return DeploymentID{}, err
+	}
+	// keep the owner as written: ids are compared and looked up by the address string
+	owner, err := sdkutil.GetString(attrs, evOwnerKey)
 	if err != nil {
 		return DeploymentID{}, err
 	}
@@ -130,7 +134,7 @@ func ParseEVDeploymentID(attrs []sdk.Attribute) (DeploymentID, error) {
 	}
 
 	return DeploymentID{
-		Owner: owner.String(),
+		Owner: owner,
 		DSeq:  dseq,
 	}, nil
 }
